@@ -35,6 +35,10 @@ class World:
         self.rng = random.Random(seed)
         self.seed = seed
         self._npick = 0
+        self.tags = set()
+        # missing dissimilarities: none / one pair missing in every RDM (common mask, as
+        # subsample_pattern produces) / a different pair per RDM (as from_partials produces)
+        self.nan_mode = ['none', 'common', 'per-rdm'][seed % 3]
         self.variant = seed % 2          # 0: list-valued descriptors, 1: numpy-array-valued
         self.n_cond = 4 + (seed // 2) % 2
         self.n_rdm = 3
@@ -45,6 +49,58 @@ class World:
         k = (self.seed + 3 * self._npick) % len(options)
         self._npick += 1
         return options[k]
+
+    def tag(self, t):
+        self.tags.add(t)
+
+    def with_nans(self, d, nan=None):
+        """put NaNs into a stack of RDM vectors according to the seed's mode"""
+        mode = nan or self.nan_mode
+        self.tag('nan:' + mode)
+        d = np.array(d, dtype=float)
+        npair = d.shape[1]
+        if mode == 'none' or npair < 3:
+            return d
+        j0 = self.seed % npair
+        for r in range(d.shape[0]):
+            d[r, j0 if mode == 'common' else (j0 + r) % npair] = np.nan
+        return d
+
+    def eval_nan(self):
+        """compare() rejects differing NaN positions: models and data share the common mask"""
+        return 'none' if self.nan_mode == 'none' or getattr(self, '_no_nan', False) else 'common'
+
+    def sigma_k(self, n, vector_ok=True):
+        """None / pattern covariance matrix / variance vector, as real float arrays"""
+        k = self.pick(['none', 'matrix', 'vector'] if vector_ok else ['matrix', 'none'])
+        self.tag('sigma_k:' + k)
+        if k == 'none':
+            return None
+        if k == 'vector':
+            return np.linspace(0.5, 1.5, n)
+        m = np.eye(n) * 1.5
+        m[0, 1] = m[1, 0] = 0.25
+        return m
+
+    def weights_for(self, r):
+        """argument `weights` of RDMs.mean: 2-D array of the vectors' shape, 1-D per-RDM array,
+           a descriptor name holding either, or None; the arrays are real float ndarrays that a
+           careless asarray + in-place write would corrupt"""
+        k = self.pick(['2d', '1d', 'name-2d', 'name-1d', 'none'])
+        self.tag('weights:' + k)
+        w2 = np.linspace(0.5, 2.0, r.dissimilarities.size).reshape(r.dissimilarities.shape)
+        w1 = np.linspace(1.0, 2.0, r.n_rdm)
+        if k == '2d':
+            return w2
+        if k == '1d':
+            return w1
+        if k == 'name-2d':
+            r.rdm_descriptors['wts'] = w2
+            return 'wts'
+        if k == 'name-1d':
+            r.rdm_descriptors['wts'] = w1
+            return 'wts'
+        return None
 
     def _vals(self, n, lo=-2, hi=40):
         # dyadic values, a few negative (crossnobis RDMs are signed), all distinct
@@ -65,7 +121,7 @@ class World:
             c[0], c[1] = c[1], c[0]
         return c
 
-    def rdms(self, n_rdm=None, n_cond=None, conds=None, positive=False):
+    def rdms(self, n_rdm=None, n_cond=None, conds=None, positive=False, nan=None):
         from rsatoolbox.rdm.rdms import RDMs
         n_rdm = n_rdm or self.n_rdm
         n_cond = n_cond or self.n_cond
@@ -73,6 +129,7 @@ class World:
         d = np.stack([self._vals(npair) for _ in range(n_rdm)])
         if positive:
             d = np.abs(d) + 0.125
+        d = self.with_nans(d, nan)
         conds = conds or self.conds(n_cond)
         return RDMs(
             d, dissimilarity_measure='squared euclidean',
@@ -82,16 +139,16 @@ class World:
             pattern_descriptors={'cond': self._d(conds),
                                  'cat': self._d([i % 2 for i in range(n_cond)])})
 
-    def euclid_rdms(self, n_rdm=2, conds=None):
+    def euclid_rdms(self, n_rdm=2, conds=None, nan=None):
         """squared euclidean RDMs of random point clouds (valid distance matrices)"""
-        r = self.rdms(n_rdm=n_rdm, conds=conds)
+        r = self.rdms(n_rdm=n_rdm, conds=conds, nan='none')
         n = r.n_cond
         rows = []
         for _ in range(n_rdm):
             pts = self._vals(n * 6, 1, 60).reshape(n, 6) / 4.0
             d = ((pts[:, None, :] - pts[None, :, :]) ** 2).sum(-1)
             rows.append(d[np.triu_indices(n, 1)])
-        r.dissimilarities = np.stack(rows)
+        r.dissimilarities = self.with_nans(np.stack(rows), nan)
         return r
 
     def dataset(self, n_cond=None, n_rep=2, n_ch=5):
@@ -131,7 +188,8 @@ class World:
 
     def model(self, kind='fixed'):
         from rsatoolbox.model import ModelFixed, ModelWeighted, ModelSelect, ModelInterpolate
-        r = self.rdms(n_rdm=1 if kind == 'fixed' else 2, positive=True, conds=sorted(self.conds()))
+        r = self.rdms(n_rdm=1 if kind == 'fixed' else 2, positive=True, conds=sorted(self.conds()),
+                      nan=self.eval_nan())
         cls = {'fixed': ModelFixed, 'weighted': ModelWeighted, 'select': ModelSelect,
                'interpolate': ModelInterpolate}[kind]
         return cls(kind, r)
@@ -140,10 +198,11 @@ class World:
         return [self.model('fixed'), self.model('weighted')]
 
     def data_rdms(self, n_rdm=4):
-        return self.euclid_rdms(n_rdm=n_rdm, conds=sorted(self.conds()))
+        return self.euclid_rdms(n_rdm=n_rdm, conds=sorted(self.conds()), nan=self.eval_nan())
 
     def result(self):
         from rsatoolbox.inference import eval_fixed
+        self._no_nan = True
         return eval_fixed(self.models(), self.data_rdms(), method='cosine')
 
     def evaluations(self, n_boot=6, n_model=2):
@@ -151,6 +210,7 @@ class World:
         return np.abs(a)
 
     def prec(self, n=5):
+        self.tag('noise:array')
         a = np.eye(n) * 2.0
         a[0, 1] = a[1, 0] = 0.25
         return a
@@ -180,7 +240,7 @@ def _recipes():
     def _(w):
         return w.rdms(), [w.pick([0, 1, [0, 2]])], {}
 
-    for meth, mk in (('subset', lambda w: ['name', 'r1'] if w.rng.random() < .5 else ['grp', 0]),
+    for meth, mk in (('subset', lambda w: w.pick([['name', 'r1'], ['grp', 0], ['name', np.array(['r0', 'r2'])]])),
                      ('subsample', lambda w: ['name', ['r1', 'r1', 'r2']]),
                      ('subset_pattern', lambda w: ['cond', ['c0', 'c2', 'c3']] if w.rng.random() < .6 else ['cat', 1]),
                      ('subsample_pattern', lambda w: ['cond', ['c1', 'c1', 'c3', 'c0']])):
@@ -195,7 +255,9 @@ def _recipes():
 
     @reg('rdm.rdms.RDMs.mean')
     def _(w):
-        return w.rdms(), [], {}
+        # weights only matter when dissimilarities are missing: every weights variant meets NaNs
+        r = w.rdms(nan='per-rdm' if w.nan_mode == 'none' else w.nan_mode)
+        return r, [], {'weights': w.weights_for(r)}
 
     @reg('rdm.rdms.RDMs.save')
     def _(w):
@@ -270,16 +332,20 @@ def _recipes():
         return None, [w.rdms(positive=True)], {'method': w.pick(['evidence', 'setsize', 'simple'])}
 
     # --- rdm.compare
-    def cmp(w, **kw):
+    def cmp(w, sig=False, **kw):
         c = sorted(w.conds())
-        return None, [w.euclid_rdms(n_rdm=2, conds=c), w.euclid_rdms(n_rdm=3, conds=c)], kw
+        # differing NaN positions are rejected by compare: both stacks use the common mask then
+        nan = 'common' if w.nan_mode != 'none' else 'none'
+        if sig:
+            kw = dict(kw, sigma_k=w.sigma_k(w.n_cond))
+        return None, [w.euclid_rdms(n_rdm=2, conds=c, nan=nan), w.euclid_rdms(n_rdm=3, conds=c, nan=nan)], kw
     for nm in ('compare', 'compare_bures_metric', 'compare_bures_similarity', 'compare_correlation',
                'compare_correlation_cov_weighted', 'compare_cosine', 'compare_cosine_cov_weighted',
                'compare_kendall_tau', 'compare_kendall_tau_a', 'compare_neg_riemannian_distance',
                'compare_rho_a', 'compare_spearman'):
-        R['rdm.compare.' + nm] = cmp
-    R['rdm.compare.compare'] = lambda w: cmp(w, method=w.pick(
-        ['cosine', 'corr', 'spearman', 'tau-a', 'rho-a', 'cosine_cov', 'corr_cov', 'kendall']))
+        R['rdm.compare.' + nm] = (lambda sig: lambda w: cmp(w, sig=sig))('cov_weighted' in nm or 'riemann' in nm)
+    R['rdm.compare.compare'] = lambda w: cmp(w, sig=True, method=w.pick(
+        ['cosine_cov', 'cosine', 'corr_cov', 'corr', 'spearman', 'tau-a', 'rho-a', 'kendall']))
 
     @reg('rdm.pairs.pairs_by_percentile')
     def _(w):
@@ -295,21 +361,30 @@ def _recipes():
                 kw['method'] = method
             return None, [ds], kw
         return f
-    R['rdm.calc.calc_rdm'] = lambda w: calc(w.pick(['euclidean', 'correlation', 'mahalanobis', 'crossnobis',
-                                                           'poisson', 'poisson_cv']),
-                                            descriptor='conds', cv_descriptor='runs')(w)
+    def calc_any(w):
+        m = w.pick(['mahalanobis', 'crossnobis', 'euclidean', 'correlation', 'poisson', 'poisson_cv'])
+        extra = {'descriptor': 'conds', 'cv_descriptor': 'runs'}
+        if m in ('mahalanobis', 'crossnobis'):
+            extra['noise'] = w.prec()
+            w.tag('noise:array')
+        return calc(m, **extra)(w)
+    R['rdm.calc.calc_rdm'] = calc_any
     R['rdm.calc.calc_rdm_correlation'] = calc(descriptor='conds')
     R['rdm.calc.calc_rdm_euclidean'] = calc(descriptor='conds')
-    R['rdm.calc.calc_rdm_mahalanobis'] = lambda w: (None, [w.dataset()], {'descriptor': 'conds', 'noise': w.prec()})
+    R['rdm.calc.calc_rdm_mahalanobis'] = lambda w: (w.tag('noise:array'), (None, [w.dataset()], {'descriptor': 'conds', 'noise': w.prec()}))[1]
     R['rdm.calc.calc_rdm_crossnobis'] = lambda w: (None, [w.dataset(), 'conds'],
                                                   {'noise': w.prec(), 'cv_descriptor': 'runs'})
     R['rdm.calc.calc_rdm_poisson'] = lambda w: (None, [w.count_dataset()], {'descriptor': 'conds'})
     R['rdm.calc.calc_rdm_poisson_cv'] = lambda w: (None, [w.count_dataset()],
                                                   {'descriptor': 'conds', 'cv_descriptor': 'runs'})
-    R['rdm.calc.calc_rdm_movie'] = lambda w: (None, [w.tdataset()], {'method': 'euclidean', 'descriptor': 'conds'})
+    R['rdm.calc.calc_rdm_movie'] = lambda w: (None, [w.tdataset()], w.pick([
+        {'method': 'euclidean', 'descriptor': 'conds'},
+        {'method': 'mahalanobis', 'descriptor': 'conds', 'noise': w.prec(3)}]))
     R['rdm.calc_unbalanced.calc_rdm_unbalanced'] = lambda w: (
-        None, [w.dataset()], {'method': w.pick(['euclidean', 'crossnobis']), 'descriptor': 'conds',
-                              'cv_descriptor': 'runs'})
+        None, [w.dataset()], w.pick([
+            {'method': 'crossnobis', 'descriptor': 'conds', 'cv_descriptor': 'runs', 'noise': w.prec()},
+            {'method': 'euclidean', 'descriptor': 'conds', 'cv_descriptor': 'runs'},
+            {'method': 'mahalanobis', 'descriptor': 'conds', 'noise': w.prec()}]))
 
     @reg('rdm.calc_unbalanced.calc_one_similarity')
     def _(w):
@@ -426,7 +501,9 @@ def _recipes():
     R['model.model.Model.predict'] = lambda w: (base_model(w), [], {})
     R['model.model.Model.predict_rdm'] = lambda w: (base_model(w), [], {})
     R['model.model.Model.fit'] = lambda w: (w.model(w.pick(['fixed', 'weighted', 'select', 'interpolate'])),
-                                            [w.data_rdms()], {'method': 'cosine'})
+                                            [w.data_rdms()], w.pick([
+                                                {'method': 'cosine'},
+                                                {'method': 'cosine_cov', 'sigma_k': w.sigma_k(w.n_cond)}]))
     R['model.model.Model.to_dict'] = lambda w: (w.model(w.pick(['fixed', 'weighted'])), [], {})
     R['model.model.model_from_dict'] = lambda w: (None, [w.model(w.pick(['fixed', 'weighted', 'select',
                                                                                'interpolate'])).to_dict()], {})
@@ -441,16 +518,42 @@ def _recipes():
     for nm, k in (('fit_mock', 'fixed'), ('fit_select', 'select'), ('fit_interpolate', 'interpolate'),
                   ('fit_optimize', 'weighted'), ('fit_optimize_positive', 'weighted'),
                   ('fit_regress', 'weighted'), ('fit_regress_nn', 'weighted')):
-        R['model.fitter.' + nm] = (lambda k: lambda w: (None, [w.model(k), w.data_rdms()],
-                                                        {'method': w.pick(['cosine', 'corr'])}))(k)
+        def fitrec(k):
+            def f(w):
+                kw = {'method': w.pick(['cosine_cov', 'cosine', 'corr_cov', 'corr'])}
+                if 'cov' in kw['method']:
+                    kw['sigma_k'] = w.sigma_k(w.n_cond, vector_ok=False)
+                data = w.data_rdms()
+                if (w.seed // 3) % 2 == 0:
+                    # as crossval does: the data hold a subset of the patterns, the model is
+                    # restricted with a real index array
+                    idx = np.arange(1, w.n_cond)
+                    data = data.subset_pattern('index', idx)
+                    if kw.get('sigma_k') is not None:
+                        kw['sigma_k'] = kw['sigma_k'][1:, 1:].copy()
+                    kw['pattern_idx'] = idx
+                    kw['pattern_descriptor'] = 'index'
+                    w.tag('pattern_idx:array')
+                return None, [w.model(k), data], kw
+            return f
+        R['model.fitter.' + nm] = fitrec(k)
 
     # --- inference
     def ev(**kw):
         return lambda w: (None, [w.models(), w.data_rdms()], dict(kw))
-    R['inference.evaluate.eval_fixed'] = ev(method='cosine')
-    R['inference.evaluate.eval_bootstrap'] = ev(N=3)
-    R['inference.evaluate.eval_bootstrap_pattern'] = ev(N=3)
-    R['inference.evaluate.eval_bootstrap_rdm'] = ev(N=3)
+    def ev_theta(**kw):
+        def f(w):
+            k = dict(kw)
+            if (w.seed // 2) % 2 == 0:
+                # one parameter vector per model (fixed: none, weighted: 2 weights), float arrays
+                k['theta'] = [None, np.array([0.75, 1.25])]
+                w.tag('theta:array')
+            return None, [w.models(), w.data_rdms()], k
+        return f
+    R['inference.evaluate.eval_fixed'] = ev_theta(method='cosine')
+    R['inference.evaluate.eval_bootstrap'] = ev_theta(N=3)
+    R['inference.evaluate.eval_bootstrap_pattern'] = ev_theta(N=3)
+    R['inference.evaluate.eval_bootstrap_rdm'] = ev_theta(N=3)
     R['inference.evaluate.bootstrap_crossval'] = ev(N=2, k_pattern=2, k_rdm=2)
     R['inference.evaluate.eval_dual_bootstrap'] = ev(N=2, k_pattern=2, k_rdm=2)
     R['inference.evaluate.eval_dual_bootstrap_random'] = ev(N=2, n_pattern=2, n_rdm=2)
@@ -540,8 +643,13 @@ def _recipes():
         None, [w.evaluations()], {'diff_var': np.array([0.02]), 'dof': 5})
     R['util.inference_util.pool_rdm'] = lambda w: (None, [w.data_rdms()], {'method': w.pick(
         ['cosine', 'corr', 'spearman', 'rho-a', 'cosine_cov', 'neg_riem_dist'])})
-    R['util.pooling.pool_rdm'] = lambda w: (None, [w.data_rdms()], {'method': w.pick(
-        ['euclid', 'cosine', 'corr', 'spearman', 'rho-a', 'cosine_cov', 'kendall'])})
+    def pool(w):
+        m = w.pick(['cosine_cov', 'euclid', 'corr_cov', 'cosine', 'corr', 'spearman', 'rho-a', 'kendall'])
+        kw = {'method': m}
+        if 'cov' in m:
+            kw['sigma_k'] = w.sigma_k(w.n_cond, vector_ok=False)
+        return None, [w.data_rdms()], kw
+    R['util.pooling.pool_rdm'] = pool
     ev3 = lambda w: np.abs(w._vals(4 * 2 * 5, 1, 60).reshape(4, 2, 5)) / 64.0  # noqa: E731
     R['util.inference_util.ranksum_pair_test'] = lambda w: (None, [ev3(w)], {})
     R['util.inference_util.ranksum_value_test'] = lambda w: (None, [ev3(w)], {})
@@ -553,7 +661,7 @@ def _recipes():
     R['util.inference_util.zero_tests'] = lambda w: (None, [w.evaluations()],
                                                      {'model_var': np.array([0.01, 0.02]), 'dof': 5})
     R['util.matrix.centering'] = lambda w: (None, [4], {})
-    R['util.matrix.get_v'] = lambda w: (None, [4, None], {})
+    R['util.matrix.get_v'] = lambda w: (None, [4, w.sigma_k(4, vector_ok=False)], {})
     R['util.matrix.indicator'] = lambda w: (None, [np.array([0, 1, 0, 2, 1])], {})
     R['util.matrix.pairwise_contrast'] = lambda w: (None, [np.array([0, 1, 0, 2, 1])], {})
     R['util.matrix.pairwise_contrast_sparse'] = lambda w: (None, [np.array([0, 1, 0, 2, 1])], {})
@@ -608,6 +716,7 @@ def build_call(qualname, seed):
         raise Uncovered('no argument factory')
     w = World(seed)
     self_obj, args, kwargs = RECIPES[key](w)
+    build_call.last_tags = sorted(w.tags)
     return self_obj, list(args), dict(kwargs)
 
 
